@@ -130,7 +130,7 @@ def run_verus_unit(name, spec, repo, tier, workdir):
         if ln.lstrip().startswith('//'):
             continue
         m = re.match(r'\s*(?:pub(?:\([a-z]+\))?\s+)?(?:(open|closed|uninterp)\s+)?(?:(spec|proof|exec|broadcast proof|axiom)\s+)?(?:const\s+)?fn\s+(\w+)', ln)
-        if m and m.group(2) != 'spec' and m.group(3) not in checked:
+        if m and m.group(2) != 'spec' and m.group(3) not in checked and m.group(3) != 'main':
             # skip external_body fns (assumed specs)
             prev = '\n'.join(lines[max(0, i - 3):i])
             if 'external_body' in prev or 'external' in prev and 'verifier' in prev:
@@ -168,7 +168,26 @@ def run_verus_unit(name, spec, repo, tier, workdir):
             for e in failed_by_fn[fn]:
                 obls.append(Obl('V/%s/%s' % (name, fn), 'verus', name, 'undecided', 'error outside a known function: %s' % e['message']))
     info['smt_s'] = js['times-ms']['smt']['total'] / 1000.0 if 'times-ms' in js else None
+    info['assumption_scan'] = scan_assumptions(text, 'woven:' + name)
+    if info['assumption_scan'] and not spec.get('trusted'):
+        obls.append(Obl('V/%s/scan' % name, 'verus', name, 'undecided',
+                        'assume/external_body/assume_specification present but the unit lists no trusted assumptions'))
     return obls, info
+
+
+SCAN_RE = re.compile(r'\b(assume\s*\(|admit\s*\(|external_body|assume_specification|external_type_specification|kani::assume|kani::stub\b|kani::stub_verified|uninterp\b)')
+
+
+def scan_assumptions(text, label):
+    """Mechanical scan for assumptions (DESIGN 2.4): every hit is reported in the evidence."""
+    out = []
+    for i, ln in enumerate(text.split('\n')):
+        if ln.lstrip().startswith('//'):
+            continue
+        m = SCAN_RE.search(ln)
+        if m:
+            out.append('%s:%d: %s' % (label, i + 1, ln.strip()[:140]))
+    return out
 
 
 # ---------------------------------------------------------------- K engine
@@ -198,6 +217,7 @@ def prepare_kani_units(scr, units, repo):
         prefix = (mp + '::' if mp else '') + modname + '::'
         hs = K.discover_harnesses(os.path.join(CONTRACTS, spec['harness']))
         info['harnesses'] = hs
+        info['assumption_scan'] = scan_assumptions(open(os.path.join(CONTRACTS, spec['harness'])).read(), spec['harness'])
         info['prefix'] = prefix
         by_crate.setdefault(spec['crate'], []).append(name)
     return by_crate, infos, und
@@ -497,6 +517,7 @@ def write_evidence(prop, tier, seed, pspec, obls, infos, cmds, scratch_diff, kno
     functions = []
     trusted = list(pspec.get('trusted_base', []))
     drops = []
+    scan = []
     for i in infos:
         for f in i.get('functions', []):
             if f.get('mode') == 'type':
@@ -506,6 +527,7 @@ def write_evidence(prop, tier, seed, pspec, obls, infos, cmds, scratch_diff, kno
             if t not in trusted:
                 trusted.append(t)
         drops += i.get('drops', []) + i.get('rewrites', [])
+        scan += i.get('assumption_scan', [])
     samples = [{'obligation': o.id, 'engine': o.engine, 'status': o.status, 'checks': o.count, 'what': o.detail} for o in (proved[:6] + bounded[:2] + failed[:4])]
     ev = {
         'property_id': prop,
@@ -525,6 +547,7 @@ def write_evidence(prop, tier, seed, pspec, obls, infos, cmds, scratch_diff, kno
             'bounded_note': 'bounded checks are stand-ins with a stated bound; they are not part of obligations/discharged',
             'reachability_probes_ok': [o.id for o in probes] + [o.id for o in proved if o.extra.get('covers')],
             'extraction_drops': sorted(set(drops)),
+            'assumption_scan': scan,
             'scratch_diff': [{'file': f, 'lines_added': n, 'lines_removed': 0} for f, n in scratch_diff],
             'unverified_surrounding_code': pspec.get('outside', []),
             'failed_obligations': [{'obligation': o.id, 'detail': o.detail} for o in failed],
